@@ -4,7 +4,8 @@ P="$1"; shift
 cd /repo || exit 2
 if [ -n "$(git status --porcelain --untracked-files=no)" ]; then echo "/repo not clean"; exit 2; fi
 git apply "$P" || { echo "patch does not apply"; exit 2; }
-trap 'git -C /repo checkout -- . ' EXIT INT TERM
+mkdir -p /verif/out/evidence_keep && cp -f /verif/evidence/*.json /verif/out/evidence_keep/ 2>/dev/null
+trap 'git -C /repo checkout -- . ; cp -f /verif/out/evidence_keep/*.json /verif/evidence/ 2>/dev/null' EXIT INT TERM
 cd /verif
 for c in "$@"; do
   ./check "$c" --tier ${TIER:-quick} 2>&1 | grep -E "^(VIOLATION|KNOWN|C[0-9]+ tier|# |HARNESS)" | cut -c1-400
